@@ -7,21 +7,22 @@
 (* SendPacket.tla must accept every event the model produces.                 *)
 EXTENDS SendPacket, TLC
 CONSTANTS Kinds
-VARIABLES s, pc, lock, now, out, nconf, viol
-vars == <<s, pc, lock, now, out, nconf, viol>>
+VARIABLES s, pc, lock, now, out, nconf, viol, needs
+vars == <<s, pc, lock, now, out, nconf, viol, needs>>
 R == {1, 2}
 Dst(r) == 100 + r
 Tag(r) == 10 + r
 Init == /\ s = SInitWith(<<5, 10, 15>>, 1200) /\ pc = [r \in R |-> "idle"] /\ lock = 0 /\ now = 0 /\ out = [r \in R |-> "none"] /\ nconf = 0 /\ viol = FALSE
-       
+        /\ needs \in [R -> BOOLEAN]          \* whether the request has a source route / extended timeout to set up (fixed per request)
+
 Begin(r, k) == /\ pc[r] = "idle" /\ pc' = [pc EXCEPT ![r] = "wantlock"] /\ s' = Start(s, r, k, Dst(r), now)
-               /\ UNCHANGED <<lock, now, out, nconf, viol>>
+               /\ UNCHANGED <<needs, lock, now, out, nconf, viol>>
 Lock(r) == /\ pc[r] = "wantlock" /\ lock = 0 /\ lock' = r /\ pc' = [pc EXCEPT ![r] = "setup"]
-           /\ UNCHANGED <<s, now, out, nconf, viol>>
-DoSetup(r) == /\ pc[r] = "setup" /\ lock = r /\ s.reqs[r].kind = "unicast"
+           /\ UNCHANGED <<needs, s, now, out, nconf, viol>>
+DoSetup(r) == /\ pc[r] = "setup" /\ lock = r /\ s.reqs[r].kind = "unicast" /\ needs[r]
               /\ viol' = (viol \/ ~SetupOk(s, Dst(r))) /\ s' = Setup(s, Dst(r)) /\ pc' = [pc EXCEPT ![r] = "send"]
-              /\ UNCHANGED <<lock, now, out, nconf>>
-SkipSetup(r) == /\ pc[r] = "setup" /\ lock = r /\ pc' = [pc EXCEPT ![r] = "send"] /\ UNCHANGED <<s, lock, now, out, nconf, viol>>
+              /\ UNCHANGED <<needs, lock, now, out, nconf>>
+SkipSetup(r) == /\ pc[r] = "setup" /\ lock = r /\ (~needs[r] \/ s.reqs[r].kind # "unicast") /\ pc' = [pc EXCEPT ![r] = "send"] /\ UNCHANGED <<needs, s, lock, now, out, nconf, viol>>
 Send(r, ans) == /\ pc[r] = "send" /\ lock = r
                 /\ viol' = (viol \/ ~EnqueueOk(s, r, Dst(r), Tag(r), now))
                 /\ s' = Enqueue(s, r, Tag(r), ans, now) /\ lock' = 0
@@ -30,21 +31,21 @@ Send(r, ans) == /\ pc[r] = "send" /\ lock = r
                                                                    ELSE IF s.reqs[r].badConf THEN "ret_err" ELSE "confirmwait"
                                                 [] ans = "refuse" -> "ret_err"
                                                 [] OTHER -> "busywait"]
-                /\ UNCHANGED <<now, out, nconf>>
+                /\ UNCHANGED <<needs, now, out, nconf>>
 BusyDelay(r) == /\ pc[r] = "busywait" /\ now' = now + s.delays[s.reqs[r].enq]
                 /\ pc' = [pc EXCEPT ![r] = IF s.reqs[r].enq < MaxEnq(s) THEN "wantlock" ELSE "ret_err"]
-                /\ UNCHANGED <<s, lock, out, nconf, viol>>
+                /\ UNCHANGED <<needs, s, lock, out, nconf, viol>>
 NcpConfirm(d, g, ok) == /\ nconf < 3 /\ nconf' = nconf + 1 /\ s' = Confirm(s, d, g, ok, now)
                         /\ pc' = [r \in R |-> IF pc[r] = "confirmwait" /\ Dst(r) = d /\ Tag(r) = g
                                                THEN (IF s'.reqs[r].okConf THEN "ret_ok" ELSE IF s'.reqs[r].badConf THEN "ret_err" ELSE pc[r]) ELSE pc[r]]
-                        /\ UNCHANGED <<lock, now, out, viol>>
+                        /\ UNCHANGED <<needs, lock, now, out, viol>>
 ConfirmTimeoutFires(r) == /\ pc[r] = "confirmwait" /\ now' = s.reqs[r].tAcc + s.ct /\ now' >= now
                           /\ viol' = (viol \/ ~FinishOk(s, r, "TimeoutError", now')) /\ out' = [out EXCEPT ![r] = "TimeoutError"]
-                          /\ s' = Finish(s, r) /\ pc' = [pc EXCEPT ![r] = "done"] /\ UNCHANGED <<lock, nconf>>
+                          /\ s' = Finish(s, r) /\ pc' = [pc EXCEPT ![r] = "done"] /\ UNCHANGED <<needs, lock, nconf>>
 Return(r) == /\ pc[r] \in {"ret_ok", "ret_err", "ret_timeout"}
              /\ LET o == CASE pc[r] = "ret_ok" -> "ok" [] pc[r] = "ret_err" -> "DeliveryError" [] OTHER -> "TimeoutError" IN
                   /\ viol' = (viol \/ ~FinishOk(s, r, o, now)) /\ out' = [out EXCEPT ![r] = o]
-             /\ s' = Finish(s, r) /\ pc' = [pc EXCEPT ![r] = "done"] /\ UNCHANGED <<lock, now, nconf>>
+             /\ s' = Finish(s, r) /\ pc' = [pc EXCEPT ![r] = "done"] /\ UNCHANGED <<needs, lock, now, nconf>>
 Next == \/ \E r \in R : \/ \E k \in Kinds : Begin(r, k)
                         \/ Lock(r) \/ DoSetup(r) \/ SkipSetup(r) \/ BusyDelay(r) \/ ConfirmTimeoutFires(r) \/ Return(r)
                         \/ \E a \in {"ok", "busy", "refuse"} : Send(r, a)
